@@ -12,3 +12,14 @@ Definition signs_of (r : registry) (ns wire : bytes) : option bool :=
   | e :: _ => Some (e_signs e)
   | [] => None
   end.
+
+(* the argument table of the generated APIs: callback.argTypes as "is pointer" flags, by receiver type
+   and Go method name (Generated/GenApis.v gen_arg_ptrs) *)
+Fixpoint lookup_args (recv go : bytes) (l : list (bytes * bytes * list bool)) : option (list bool) :=
+  match l with
+  | [] => None
+  | (rc, g, a) :: t => if bytes_eqb rc recv && bytes_eqb g go then Some a else lookup_args recv go t
+  end.
+
+Definition gen_argtab (e : entry) : list bool :=
+  match lookup_args (e_recv e) (e_go e) gen_arg_ptrs with Some a => a | None => [] end.
